@@ -391,7 +391,24 @@ func main() {
 			violations++
 			rp := filepath.Join(outDir, sanitize(name)+".txt")
 			os.WriteFile(rp, []byte("obligation: "+name+"\nthe contract of this function could not be checked against the current source:\n"+r.Error+"\n"), 0o644)
-			printed = append(printed, fmt.Sprintf("VIOLATION property=%s replay=%s no-failing-input-found", *prop, rp))
+			suffix := " no-failing-input-found"
+			base := strings.SplitN(r.Name, "$", 2)[0]
+			if f := x.replayFamilyFor(*verif, base); f != nil && os.Getenv("VERIF_NO_REPLAY") == "" {
+				if replayed[f.Template] != "" {
+					appendFile(rp, "\n--- replay ---\nsame harness as "+replayed[f.Template]+"\n")
+					if replayedOK[f.Template] {
+						suffix = ""
+					}
+				} else if replays < 3 {
+					replays++
+					ok := x.tryReplay(*repo, *verif, *prop, name, &Obligation{Name: name, Fn: r.Name, Kind: "engine"}, funcs[base], scfg, rp)
+					replayed[f.Template], replayedOK[f.Template] = rp, ok
+					if ok {
+						suffix = ""
+					}
+				}
+			}
+			printed = append(printed, fmt.Sprintf("VIOLATION property=%s replay=%s%s", *prop, rp, suffix))
 		}
 		if r.Error == "" && r.Obls == 0 {
 			violations++
